@@ -37,6 +37,10 @@ struct E3 : Engine {
 		p["pre"] = pre;
 		J th = J::arr(); int total = 0;
 		for(int t=0;t<nthreads;t++){ J ops = J::arr(); int n = 2 + r.below(9); if(total + n > budget) n = std::max(1,budget - total); total += n; for(int i=0;i<n;i++) ops.push(mk(true)); th.push(ops); if(total >= budget) break; }
+		// clocked: one more thread whose only operation advances the clock past deadlines while the others run; in the history it is an operation like any other
+		// (everything that overlaps it may be placed on either side), deadlines are 0..3 s so that the tick separates "live" from "expired"
+		if(p.gets("backend") == "thread" && r.below(4) == 0){ int ts = 1 + (int)r.below(3); for(auto &ops:th.a) for(auto &o:ops.a) if(o.gets("op") == "store") o["dl"] = (int)r.below(4); for(auto &o:pre.a) if(o.gets("op") == "store") o["dl"] = (int)r.below(4); p["pre"] = pre;
+			J tk = J::arr(); J o = J::obj(); o["op"] = "tick"; o["s"] = ts; int lead = (int)r.below(4); for(int i=0;i<lead;i++){ J y = J::obj(); y["op"] = "yield"; tk.push(y); } tk.push(o); th.push(tk); p["clocked"] = 1; }
 		p["threads"] = th;
 		return p;
 	}
@@ -62,10 +66,13 @@ struct E3 : Engine {
 		int opseq = 0;
 		auto decode = [&](const J &o,int thread){ Op op; op.thread = thread; op.kind = o.gets("op"); op.how = (int)o.geti("how");
 			if(op.kind == "rise") op.key = trig_name((int)o.geti("t")); else op.key = key_name((int)o.geti("k"));
+			if(op.kind == "tick") op.deadline = std::max<int64_t>(0,std::min<int64_t>(o.geti("s"),1000));
 			if(op.kind == "store"){ const J &tr = o.get("trig"); for(size_t j=0;j<tr.size();j++) op.trig.insert(trig_name((int)tr.a[j].as_int())); op.deadline = now + o.geti("dl"); op.val = "v" + std::to_string(thread) + "." + std::to_string(opseq); if(plan.gets("backend") == "process"){ if(plan.geti("pbig")) op.val += std::string(20000 + (size_t)(opseq * 7919 % 100000),(char)('a' + opseq % 26)); else if(opseq & 1) op.val += std::string(20 + opseq % 50,'.'); } }   // beyond the small-string size: the value is copied into the shared segment before the cache lock is taken
 			opseq++; return op; };
 		auto exec = [&](base_cache &c,Op &op){
+			if(op.kind == "yield"){ simk::yield(); return; }
 			op.inv = ++clock;
+			if(op.kind == "tick") simk::advance_us(op.deadline * 1000000);
 			if(op.kind == "store") c.store(op.key,op.val,op.trig,op.deadline);
 			else if(op.kind == "fetch"){ time_t dl = 0;
 				switch(op.how & 3){ case 0: op.hit = c.fetch(op.key,&op.rval,&op.rtrig,&dl,0); break; case 1: op.hit = c.fetch(op.key,op.rval,&op.rtrig); break; case 2: op.hit = c.fetch(op.key,&op.rval,0,&dl,0); break; default: op.hit = c.fetch(op.key,0,0,0,0); }
@@ -98,7 +105,8 @@ struct E3 : Engine {
 			std::vector<std::thread> thr;
 			for(size_t t=0;t<nthreads;t++) thr.emplace_back([&,t]{ for(auto &op:per[t]) exec(*cache,op); });
 			for(auto &t:thr) t.join();
-			for(auto &v:per) for(auto &o:v) hist.push_back(o);
+			for(auto &v:per) for(auto &o:v) if(o.kind != "yield") hist.push_back(o);
+			if(plan.geti("clocked")) res.counters["clocked_runs"] = 1;
 			cache = 0;
 		}
 		res.hash = simk::trace_hash();
